@@ -206,6 +206,22 @@ def run (case _impl : String) : String :=
         showTrace (Exec.runWith (scripted ds) idem cl0 plan (fun k => os.getD k .ok) (plan.length + ops.length + 2))
       | _, _, _ => "bad-case"
     | _, _ => "bad-case"
+  | ["spec", pol, clplanm, _outs] =>
+    -- speculative execution: several interleaved fibers; checker mode: the implementation's line is accepted
+    -- iff it satisfies `attempts_bounded_speculative` (and the session count of 1 + m fibers)
+    match parsePolicy pol, clplanm.splitOn "/" with
+    | some (p, idem), [c, pl, ms] =>
+      match parseCl c, parsePlan pl, ms.toNat?, words _impl with
+      | some _, some plan, some m, [n, sn, _r] =>
+        match (n.drop 2).toString.toNat?, (sn.drop 2).toString.toNat? with
+        | some n, some sn =>
+          let fibers := if idem then 1 + m else 1
+          if n.startsWith "N=" ∧ sn.startsWith "S=" ∧ n ≤ plan.length + fibers * sameTargetBound p ∧ sn ≤ fibers
+          then _impl else s!"REJECT attempts>{plan.length}+{fibers}*{sameTargetBound p} or sessions>{fibers}"
+        | _, _ => "REJECT unparsable"
+      | some _, some _, some _, _ => "REJECT unparsable"
+      | _, _, _, _ => "bad-case"
+    | _, _ => "bad-case"
   | _ => "bad-case"
 
 end ScyllaVerif.Drive.C06
